@@ -752,6 +752,11 @@ func runCPU() {
 		steps++
 		rep.Count("reset cases")
 	}
+	var dd *drv.Drv
+	if err == nil {
+		dd = d
+	}
+	steps += runScenarios(rep, dd, modelProps)
 	rep.Evaluations = steps
 	rep.Distinct = int64(len(distinct))
 	rep.CountN("cases", int64(len(cases)))
@@ -760,7 +765,7 @@ func runCPU() {
 		"(whole bus mapped) and are compared with each other, with the compiled Lean model, and with oracles for crashes / address range / cycle accounting / stop latch. " +
 		"data-directed second pass: the addresses an instruction reads beyond its own bytes are learnt from a first run and preset with boundary values relative to the registers (equal / off-by-one / complements landing exactly on carry and overflow boundaries / BCD digits); " +
 		"additionally: per EA-group opcode, states steering the effective address exactly onto $FFFFFF / $FFFFFE / one past the top / bank ends (16-bit data straddling the wrap); and cases with the interrupt latch set to NMI / IRQ / idle / junk values before the Step (model Cpu.stepFull, lockstep, no crash, cycle bookkeeping of the servicing Step, stack at the wrap boundaries), and Reset() from random states (model Cpu.reset, lockstep, stop latch cleared). " +
-		"evaluations = instructions executed per interpreter; distinct_nontrivial = distinct (opcode or program, M, X, E, D) classes"
+		"multi-step scenarios: 4..31 steps over a weighted opcode soup (block moves, width switches, XCE, stack traffic, BRK/COP/RTI, WAI/STP, calls/returns frequent) with the NMI latch, TriggerIRQ() or Reset() applied between steps, both packages in lockstep and against the model; evaluations = instructions executed per interpreter; distinct_nontrivial = distinct (opcode or program, M, X, E, D) classes"
 	rep.Emit()
 }
 
